@@ -7,8 +7,6 @@ Import ListNotations.
 From PV Require Import Model.SanitizeDef.
 Open Scope N_scope.
 
-Definition fold_ascii (c : N) : N := if (65 <=? c) && (c <=? 90) then c + 32 else c.
-
 Fixpoint like (p : str) : str -> bool :=
   match p with
   | [] => fun s => match s with [] => true | _ :: _ => false end
